@@ -167,6 +167,42 @@ func (b *docBuilder) dirs() string {
 	return out
 }
 
+// fieldDirs: executable directives the schema declares for FIELD (besides @skip/@include), on about a fifth of
+// the field selections. The generated _fieldMiddleware runs them around the field's own chain.
+func (b *docBuilder) fieldDirs() string {
+	switch b.g.profile {
+	case "c01", "c04", "c06", "sub":
+	default:
+		return ""
+	}
+	var names []string
+	for n, d := range b.g.s.Directives {
+		if n == "skip" || n == "include" || n == "defer" {
+			continue
+		}
+		for _, l := range d.Locations {
+			if l == ast.LocationField {
+				names = append(names, n)
+			}
+		}
+	}
+	if len(names) == 0 || b.r.Below(5) != 0 {
+		return ""
+	}
+	sort.Strings(names)
+	out := ""
+	for _, n := range names {
+		if len(names) > 1 && b.r.Bool() {
+			continue
+		}
+		out += " @" + n
+		if a := b.g.s.Directives[n].Arguments; len(a) == 1 && a[0].Type.Name() == "Int" && b.r.Bool() {
+			out += fmt.Sprintf("(%s: %d)", a[0].Name, b.r.Below(3))
+		}
+	}
+	return out
+}
+
 func (b *docBuilder) deferDir() string {
 	if !b.defer_ || b.r.Below(2) != 0 {
 		return ""
@@ -272,7 +308,7 @@ func (b *docBuilder) selSet(def *ast.Definition, depth int, top bool) string {
 				alias = f.Name + "2: "
 			}
 			ft := b.g.s.Types[f.Type.Name()]
-			sel := alias + f.Name + b.dirs()
+			sel := alias + f.Name + b.dirs() + b.fieldDirs()
 			if ft.Kind == ast.Object || ft.Kind == ast.Interface || ft.Kind == ast.Union {
 				if depth <= 0 {
 					sel += " { __typename }"
